@@ -54,7 +54,10 @@ Ints == <<
   <<"IntendedNumberOfPagingAttempts", "int", B(1), B(16), TRUE>>,
   <<"DRBID", "int", B(1), B(32), TRUE>>,
   <<"ERABID", "int", B(0), B(15), TRUE>>,
-  <<"LocationReportingReferenceID", "int", B(1), B(64), TRUE>> >>
+  <<"LocationReportingReferenceID", "int", B(1), B(64), TRUE>>,
+  <<"PacketLossRate", "int", B(0), B(1000), TRUE>>,
+  <<"TNLAddressWeightFactor", "int", B(0), B(255), FALSE>>,
+  <<"NetworkInstance", "int", B(1), B(256), TRUE>> >>
 
 Strings == <<
   <<"SecurityKey", "bitstr", B(256), B(256), FALSE>>,
@@ -97,7 +100,10 @@ Strings == <<
   <<"SourceToTargetTransparentContainer", "octstr", NoB, NoB, FALSE>>,
   <<"TargetToSourceTransparentContainer", "octstr", NoB, NoB, FALSE>>,
   <<"RANNodeName", "octstr", B(1), B(150), TRUE>>,
-  <<"AMFName", "octstr", B(1), B(150), TRUE>> >>
+  <<"AMFName", "octstr", B(1), B(150), TRUE>>,
+  <<"EPSTAC", "octstr", B(2), B(2), FALSE>>,
+  <<"UERadioCapabilityForPagingOfNR", "octstr", NoB, NoB, FALSE>>,
+  <<"UERadioCapabilityForPagingOfEUTRA", "octstr", NoB, NoB, FALSE>> >>
 
 \* SEQUENCE (SIZE(1..maxnoof...)) OF
 Lists == <<
@@ -146,7 +152,39 @@ Lists == <<
   <<"DRBsToQosFlowsMappingList", "seqof", B(1), B(32), FALSE>>,
   <<"QosFlowPerTNLInformationList", "seqof", B(1), B(3), FALSE>>,
   <<"UPTransportLayerInformationPairList", "seqof", B(1), B(3), FALSE>>,
-  <<"CriticalityDiagnosticsIEList", "seqof", B(1), B(256), FALSE>> >>
+  <<"CriticalityDiagnosticsIEList", "seqof", B(1), B(256), FALSE>>,
+  <<"CellIDBroadcastEUTRA", "seqof", B(1), B(65535), FALSE>>,
+  <<"CellIDBroadcastNR", "seqof", B(1), B(65535), FALSE>>,
+  <<"CellIDCancelledEUTRA", "seqof", B(1), B(65535), FALSE>>,
+  <<"CellIDCancelledNR", "seqof", B(1), B(65535), FALSE>>,
+  <<"TAIBroadcastEUTRA", "seqof", B(1), B(65535), FALSE>>,
+  <<"TAIBroadcastNR", "seqof", B(1), B(65535), FALSE>>,
+  <<"TAICancelledEUTRA", "seqof", B(1), B(65535), FALSE>>,
+  <<"TAICancelledNR", "seqof", B(1), B(65535), FALSE>>,
+  <<"EmergencyAreaIDBroadcastEUTRA", "seqof", B(1), B(65535), FALSE>>,
+  <<"EmergencyAreaIDBroadcastNR", "seqof", B(1), B(65535), FALSE>>,
+  <<"EmergencyAreaIDCancelledEUTRA", "seqof", B(1), B(65535), FALSE>>,
+  <<"EmergencyAreaIDCancelledNR", "seqof", B(1), B(65535), FALSE>>,
+  <<"CompletedCellsInTAIEUTRA", "seqof", B(1), B(65535), FALSE>>,
+  <<"CompletedCellsInTAINR", "seqof", B(1), B(65535), FALSE>>,
+  <<"CompletedCellsInEAIEUTRA", "seqof", B(1), B(65535), FALSE>>,
+  <<"CompletedCellsInEAINR", "seqof", B(1), B(65535), FALSE>>,
+  <<"CancelledCellsInTAIEUTRA", "seqof", B(1), B(65535), FALSE>>,
+  <<"CancelledCellsInTAINR", "seqof", B(1), B(65535), FALSE>>,
+  <<"CancelledCellsInEAIEUTRA", "seqof", B(1), B(65535), FALSE>>,
+  <<"CancelledCellsInEAINR", "seqof", B(1), B(65535), FALSE>>,
+  <<"EUTRACGIListForWarning", "seqof", B(1), B(65535), FALSE>>,
+  <<"NRCGIListForWarning", "seqof", B(1), B(65535), FALSE>>,
+  <<"TAIListForWarning", "seqof", B(1), B(65535), FALSE>>,
+  <<"EmergencyAreaIDListForRestart", "seqof", B(1), B(256), FALSE>>,
+  <<"TAIListForInactive", "seqof", B(1), B(16), FALSE>>,
+  <<"UnavailableGUAMIList", "seqof", B(1), B(256), FALSE>>,
+  <<"OverloadStartNSSAIList", "seqof", B(1), B(1024), FALSE>>,
+  <<"AMFTNLAssociationToRemoveList", "seqof", B(1), B(32), FALSE>>,
+  <<"AMFTNLAssociationToUpdateList", "seqof", B(1), B(32), FALSE>>,
+  <<"XnTLAs", "seqof", B(1), B(16), FALSE>>,
+  <<"XnGTPTLAs", "seqof", B(1), B(16), FALSE>>,
+  <<"ExpectedUEMovingTrajectory", "seqof", B(1), B(16), FALSE>> >>
 
 \* ENUMERATED: lb unused (-1), ub = number of root values - 1
 Enums == <<
@@ -200,7 +238,13 @@ Enums == <<
   <<"TraceDepth", "enum", NoB, B(5), TRUE>>,
   <<"UERetentionInformation", "enum", NoB, B(0), TRUE>>,
   <<"CellSize", "enum", NoB, B(3), TRUE>>,
-  <<"SONInformationRequest", "enum", NoB, B(0), TRUE>> >>
+  <<"SONInformationRequest", "enum", NoB, B(0), TRUE>>,
+  <<"ExpectedHOInterval", "enum", NoB, B(6), TRUE>>,
+  <<"ExpectedUEMobility", "enum", NoB, B(1), TRUE>>,
+  <<"MICOModeIndication", "enum", NoB, B(0), TRUE>>,
+  <<"NextPagingAreaScope", "enum", NoB, B(1), TRUE>>,
+  <<"ResetAll", "enum", NoB, B(0), TRUE>>,
+  <<"SourceOfUEActivityBehaviourInformation", "enum", NoB, B(1), TRUE>> >>
 
 Rows == Ints \o Strings \o Lists \o Enums
 
@@ -246,10 +290,24 @@ InlineComplaint(r) ==
         ELSE LET t == fs[CHOOSE i \in I : TRUE].t IN
              IF t.k = "enum" /\ t.ub.has /\ t.ub.n = r[3] /\ t.ext = r[4] THEN "ok"
              ELSE "struct tags give " \o ToString(t) \o " but TS 38.413 defines an ENUMERATED with " \o ToString(r[3] + 1) \o " root values, extensible " \o ToString(r[4])
+\* families of list types with one size rule in TS 38.413 9.4: ProtocolIE-Container (SIZE (0..maxProtocolIEs)), ProtocolExtensionContainer and
+\* PrivateIE-Container (SIZE (1..65535)), and every PDUSessionResource...List... (SIZE (1..maxnoofPDUSessions), 256)
+HasPrefix(str, pre) == Len(str) >= Len(pre) /\ SubSeq(str, 1, Len(pre)) = pre
+FamilyRule(name) == IF HasPrefix(name, "ProtocolIEContainer") THEN <<0, 65535>>
+                    ELSE IF HasPrefix(name, "ProtocolExtensionContainer") \/ HasPrefix(name, "PrivateIEContainer") THEN <<1, 65535>>
+                    ELSE IF HasPrefix(name, "PDUSessionResource") /\ \E i \in 1..(Len(name) - 3) : SubSeq(name, i, i + 3) = "List" THEN <<1, 256>>
+                    ELSE <<-1, -1>>
+FamilyBad == {k \in DOMAIN NgapTypes :
+                 LET r == FamilyRule(NameOf(k)) t == Inner(NgapTypes[k]) IN
+                 r[1] >= 0 /\ t.k = "seqof" /\ ~(t.lb.has /\ t.ub.has /\ t.lb.n = r[1] /\ t.ub.n = r[2] /\ ~t.ext)}
+FamilyCount == Cardinality({k \in DOMAIN NgapTypes : FamilyRule(NameOf(k))[1] >= 0 /\ Inner(NgapTypes[k]).k = "seqof"})
 Init == l = 1 /\ bad = 0
 Next == /\ l <= Len(Rows)
         /\ (IF l = 1
-            THEN /\ \A u \in UnboundedAll : PrintT("REJECT line=0 id=" \o u \o " ev=Tag why=C03: " \o u \o ": ENUMERATED component without a value bound in its struct tag (the library refuses to encode it and cannot decode it)")
+            THEN /\ PrintT("FAMILY " \o ToString(FamilyCount))
+                 /\ \A k \in FamilyBad : PrintT("REJECT line=0 id=" \o NameOf(k) \o " ev=Tag why=C03: " \o NameOf(k) \o ": struct tags give " \o ToString(Inner(NgapTypes[k]).lb) \o ".." \o ToString(Inner(NgapTypes[k]).ub)
+                                                  \o " but TS 38.413 sizes this container / list " \o ToString(FamilyRule(NameOf(k))))
+                 /\ \A u \in UnboundedAll : PrintT("REJECT line=0 id=" \o u \o " ev=Tag why=C03: " \o u \o ": ENUMERATED component without a value bound in its struct tag (the library refuses to encode it and cannot decode it)")
                  /\ \A i \in 1..Len(Inline) : LET c == InlineComplaint(Inline[i]) IN
                        IF c \in {"ok", "absent"} THEN TRUE
                        ELSE PrintT("REJECT line=0 id=" \o Inline[i][1] \o "." \o Inline[i][2] \o " ev=Tag why=C03: " \o Inline[i][1] \o "." \o Inline[i][2] \o ": " \o c)
